@@ -90,6 +90,238 @@ def _unphi(V, node, *templates):
     return [node]
 
 
+class _Und(Exception):
+    pass
+
+
+def _parity(perm):
+    p, n = 1, len(perm)
+    for i in range(n):
+        for j in range(i + 1, n):
+            if perm[i] > perm[j]:
+                p = -p
+    return p
+
+
+class _SP:
+    """abstract value: sign * P_perm, optionally as the upper-left block of a 4x4 identity"""
+
+    def __init__(self, sign, perm, embed=False):
+        self.sign, self.perm, self.embed = sign, tuple(perm), embed
+
+    def det(self):
+        return self.sign ** len(self.perm) * _parity(self.perm)
+
+
+class _SPInterp:
+    def __init__(self, ix, module, env):
+        self.ix, self.m, self.env = ix, module, dict(env)
+
+    def ev(self, e):
+        if isinstance(e, ast.Constant):
+            return e.value
+        if isinstance(e, ast.Name):
+            if e.id in self.env:
+                return self.env[e.id]
+            raise _Und(f"name {e.id}")
+        if isinstance(e, ast.UnaryOp) and isinstance(e.op, ast.USub):
+            v = self.ev(e.operand)
+            if isinstance(v, _SP):
+                return _SP(-v.sign, v.perm, v.embed)
+            if isinstance(v, (int, float)):
+                return -v
+            raise _Und("negation")
+        if isinstance(e, ast.UnaryOp) and isinstance(e.op, ast.Not):
+            return not self.truth(self.ev(e.operand))
+        if isinstance(e, ast.BoolOp):
+            vals = [self.truth(self.ev(v)) for v in e.values]
+            return all(vals) if isinstance(e.op, ast.And) else any(vals)
+        if isinstance(e, ast.Compare) and len(e.ops) == 1:
+            import operator as o
+            a, b = self.ev(e.left), self.ev(e.comparators[0])
+            fn = {ast.Eq: o.eq, ast.NotEq: o.ne, ast.Lt: o.lt, ast.LtE: o.le, ast.Gt: o.gt, ast.GtE: o.ge}.get(type(e.ops[0]))
+            if fn is None:
+                raise _Und("comparison")
+            if isinstance(a, tuple) and isinstance(b, tuple):
+                return tuple(fn(x, y) for x, y in zip(a, b))
+            if isinstance(a, (int, float)) and isinstance(b, (int, float)):
+                return fn(a, b)
+            raise _Und("comparison of non-numbers")
+        if isinstance(e, ast.Subscript):
+            v = self.ev(e.value)
+            sl = ast.unparse(e.slice).replace(" ", "").strip("()")
+            if isinstance(v, _SP) and v.embed and sl == ":3,:3":
+                return _SP(v.sign, v.perm)
+            if isinstance(v, _SP) and not v.embed and v.sign == 1 and v.perm == (0, 1, 2):
+                idx = self.ev(e.slice)
+                if isinstance(idx, tuple) and sorted(idx) == [0, 1, 2]:
+                    return _SP(1, idx)  # eye(3)[order]: row i is e_order[i]
+            if isinstance(v, tuple):
+                idx = self.ev(e.slice)
+                if isinstance(idx, int):
+                    return v[idx]
+                if isinstance(idx, tuple):
+                    return tuple(v[i] for i in idx)
+            raise _Und(f"subscript {ast.unparse(e)[:40]}")
+        if isinstance(e, ast.Call):
+            fn = ast.unparse(e.func)
+            args = [self.ev(a) for a in e.args]
+            if fn in ("np.eye", "np.identity") and args and args[0] in (3, 4):
+                return _SP(1, (0, 1, 2), embed=args[0] == 4)
+            if fn in ("np.dot", "np.matmul") and len(args) == 2 and all(isinstance(a, _SP) for a in args):
+                A, B = args
+                return _SP(A.sign * B.sign, tuple(B.perm[A.perm[i]] for i in range(3)), A.embed or B.embed)
+            if fn == "np.linalg.det" and isinstance(args[0], _SP):
+                return args[0].det()
+            if fn == "np.isclose" and len(args) >= 2 and all(isinstance(a, (int, float)) for a in args[:2]):
+                return abs(args[0] - args[1]) < 1e-8
+            if fn in ("np.arange",) and args and isinstance(args[0], int):
+                return tuple(range(args[0]))
+            if fn in ("np.sign",) and isinstance(args[0], (int, float)):
+                return (args[0] > 0) - (args[0] < 0)
+            if isinstance(e.func, ast.Attribute) and e.func.attr in ("any", "all") and not args:
+                v = self.ev(e.func.value)
+                if isinstance(v, tuple):
+                    return any(v) if e.func.attr == "any" else all(v)
+                if isinstance(v, bool):
+                    return v
+            if isinstance(e.func, ast.Attribute) and e.func.attr == "copy" and not args:
+                return self.ev(e.func.value)
+            r = self.ix.resolve_expr(self.m, e.func)
+            from ..index import FuncInfo
+            if isinstance(r, FuncInfo) and r.cls is None:
+                sub = _SPInterp(self.ix, r.module, dict(zip(r.params, args)))
+                for k in e.keywords:
+                    sub.env[k.arg] = self.ev(k.value)
+                return sub.run(r.node.body)
+            raise _Und(f"call {fn}")
+        raise _Und(f"expression {ast.unparse(e)[:40]}")
+
+    def truth(self, v):
+        if isinstance(v, (bool, int, float)):
+            return bool(v)
+        raise _Und("truth value")
+
+    def run(self, body):
+        for st in body:
+            if isinstance(st, ast.Expr):
+                continue
+            if isinstance(st, ast.Assign) and len(st.targets) == 1:
+                t, v = st.targets[0], self.ev(st.value)
+                if isinstance(t, ast.Name):
+                    self.env[t.id] = v
+                elif isinstance(t, ast.Subscript) and isinstance(t.value, ast.Name) and ast.unparse(t.slice).replace(" ", "").strip("()") == ":3,:3" and isinstance(v, _SP):
+                    cur = self.env.get(t.value.id)
+                    if not (isinstance(cur, _SP) and cur.embed):
+                        raise _Und("block store into a non 4x4")
+                    self.env[t.value.id] = _SP(v.sign, v.perm, embed=True)
+                else:
+                    raise _Und(f"store {ast.unparse(t)[:30]}")
+            elif isinstance(st, ast.AugAssign) and isinstance(st.op, ast.Mult):
+                c = self.ev(st.value)
+                if not isinstance(c, (int, float)) or abs(c) != 1:
+                    raise _Und("scaling by something other than +-1")
+                t = st.target
+                name = t.id if isinstance(t, ast.Name) else (t.value.id if isinstance(t, ast.Subscript) and isinstance(t.value, ast.Name)
+                                                              and ast.unparse(t.slice).replace(" ", "").strip("()") == ":3,:3" else None)
+                cur = self.env.get(name)
+                if not isinstance(cur, _SP):
+                    raise _Und("scaling a non-matrix")
+                if c < 0:
+                    self.env[name] = _SP(-cur.sign, cur.perm, cur.embed)
+            elif isinstance(st, ast.If):
+                r = self.run(st.body if self.truth(self.ev(st.test)) else st.orelse)
+                if r is not None:
+                    return r
+            elif isinstance(st, ast.Return):
+                return self.ev(st.value) if st.value is not None else None
+            else:
+                raise _Und(f"statement {type(st).__name__}")
+        return None
+
+
+def _reorder_enumeration(run, ix, f3):
+    """for each order of the extents: the matrix that multiplies the returned transform when `ordered` is a det +1 signed
+    permutation whose rows pick the axes in that order"""
+    # the multiplication `to_origin = np.dot(<re-ordering>, to_origin)` and the block it sits in
+    site = None
+    for blk in ast.walk(f3.node):
+        body = getattr(blk, "body", None)
+        if not isinstance(body, list):
+            continue
+        for i, st in enumerate(body):
+            if isinstance(st, ast.Assign) and len(st.targets) == 1 and isinstance(st.targets[0], ast.Name) and isinstance(st.value, ast.Call) \
+                    and ast.unparse(st.value.func) in ("np.dot", "np.matmul") and len(st.value.args) == 2 and ast.unparse(st.value.args[1]) == st.targets[0].id \
+                    and any(isinstance(r, ast.Return) and isinstance(r.value, ast.Tuple) and r.value.elts and ast.unparse(r.value.elts[0]) == st.targets[0].id for r in ast.walk(f3.node)):
+                site = (body, i, st)
+    if site is None:
+        run.instance("B2", f3.where, "the multiplication by the axis re-ordering matrix is not in a recognised form - NOT decided", True, nontrivial=False)
+        run.assume("oriented_bounds: the axis re-ordering of the ordered result is not in a recognised form; that it is a det +1 signed permutation is not decided")
+        return
+    body, idx, st = site
+    # the name the order is bound to: `<order> = <extents>.argsort()` somewhere in the function
+    onames = [s_.targets[0].id for s_ in ast.walk(f3.node) if isinstance(s_, ast.Assign) and isinstance(s_.targets[0], ast.Name) and isinstance(s_.value, ast.Call)
+              and isinstance(s_.value.func, ast.Attribute) and s_.value.func.attr == "argsort"]
+    onames += [s_.targets[0].id for s_ in ast.walk(f3.node) if isinstance(s_, ast.Assign) and isinstance(s_.targets[0], ast.Name) and isinstance(s_.value, ast.Call)
+               and ast.unparse(s_.value.func) == "np.argsort"]
+    if len(set(onames)) != 1:
+        run.instance("B2", f3.where, "the order of the extents is not bound by one argsort - NOT decided", True, nontrivial=False)
+        run.assume("oriented_bounds: the order of the extents is not bound by one argsort")
+        return
+    oname = onames[0]
+    prelude = [s_ for s_ in body[:idx] if not (isinstance(s_, ast.Assign) and isinstance(s_.targets[0], ast.Name) and s_.targets[0].id == oname)]
+    # the tests that enclose the multiplication (evaluated per order; the `ordered` flag is on)
+    enclosing = []
+
+    def _find(blk_body, acc):
+        for s_ in blk_body:
+            if s_ is st:
+                enclosing.extend(acc)
+                return True
+            if isinstance(s_, ast.If):
+                if _find(s_.body, acc + [(s_.test, True)]) or _find(s_.orelse, acc + [(s_.test, False)]):
+                    return True
+        return False
+
+    _find(f3.node.body, [])
+    flags = {a_.arg: True for a_ in f3.node.args.args if a_.arg == "ordered"}
+    for order in itertools.permutations(range(3)):
+        it_ = _SPInterp(ix, f3.module, {oname: tuple(order), **flags})
+        try:
+            taken = True
+            for t_, pos in enclosing:
+                try:
+                    taken = taken and (it_.truth(it_.ev(t_)) == pos)
+                except _Und:
+                    pass  # a test about something else: assume the branch can be taken
+            if not taken:
+                good = tuple(order) == (0, 1, 2)
+                run.obligation("B2", f3.where, f"order {order}: the re-ordering is skipped (the extents are left as they are): already ascending: {good}", good)
+                if not good:
+                    run.violation("B2", f3.where, f"oriented_bounds: for extents order {order} the axis re-ordering is skipped although the extents are not ascending",
+                                  key=key_of("C16-B2", "flip", order))
+                continue
+            # statements of the block that build the matrix (anything else in the block is irrelevant to it and skipped)
+            for s_ in prelude:
+                try:
+                    it_.run([s_])
+                except _Und:
+                    pass
+            M = it_.ev(st.value.args[0])
+            if not isinstance(M, _SP):
+                raise _Und("the factor is not a signed permutation")
+        except _Und as e:
+            run.instance("B2", f3.where, f"order {order}: re-ordering matrix not evaluated ({e}) - NOT decided", True, nontrivial=False)
+            run.assume(f"oriented_bounds: axis re-ordering not evaluated in the signed-permutation domain ({e})")
+            return
+        good = M.det() == 1 and M.perm == tuple(order)
+        run.obligation("B2", f3.where, f"order {order}: re-ordering matrix is {'+' if M.sign > 0 else '-'}P{M.perm}, det {M.det()}: orthonormal, det +1 and permutes the extents like `min_extents[order]`", bool(good))
+        if not good:
+            run.violation("B2", f3.where, f"oriented_bounds: for extents order {order} the axis re-ordering matrix is {'+' if M.sign > 0 else '-'}P{M.perm} with determinant {M.det()}: "
+                                          f"not a det +1 signed permutation matching `min_extents[order]` (the returned transform is a mirror, not rigid)",
+                          key=key_of("C16-B2", "flip", order))
+
+
 def check(run):
     ix = Index(run.repo)
     run.analysed.update(ix.stats())
@@ -248,41 +480,10 @@ def check(run):
                 rot["PA"] = plain["_e_PA"]
                 R.same("the in-plane rotation comes from the same 2D call as the base rectangle", rot, [("_e_PC", "PA")],
                        "the rotation about the normal and the base rectangle come from different 2D projections", "rotation-source")
-    # the re-ordering matrix: evaluate the code's own statements for each of the six orders
-    blk = None
-    for st in ast.walk(f3.node):
-        if isinstance(st, ast.If) and ast.unparse(st.test) in ("ordered", "ordered is True", "ordered == True"):
-            blk = st
-    if blk is None:
-        raise AnalysisError("anchor vanished: `if ordered:` in oriented_bounds")
-    cond = [st for st in blk.body if isinstance(st, ast.If) and "det" in ast.unparse(st.test)]
-    if len(cond) != 1:
-        raise AnalysisError("anchor vanished: the determinant correction of the axis re-ordering in oriented_bounds")
-    ctext = ast.unparse(cond[0].test).replace(" ", "")
-    # which determinants get the extra negation
-    forms = {
-        "notnp.isclose(np.linalg.det(flip[:3,:3]),1.0)": lambda d: d != 1, "np.isclose(np.linalg.det(flip[:3,:3]),-1.0)": lambda d: d == -1,
-        "np.linalg.det(flip[:3,:3])<0": lambda d: d < 0, "np.linalg.det(flip[:3,:3])<0.0": lambda d: d < 0,
-        "np.isclose(np.linalg.det(flip[:3,:3]),1.0)": lambda d: d == 1, "notnp.isclose(np.linalg.det(flip[:3,:3]),-1.0)": lambda d: d != -1,
-        "np.linalg.det(flip[:3,:3])>0": lambda d: d > 0, "np.linalg.det(flip[:3,:3])>0.0": lambda d: d > 0,
-    }
-    negates = ast.unparse(cond[0].body[0]).replace(" ", "") in ("flip[:3,:3]=np.dot(flip[:3,:3],-np.eye(3))", "flip[:3,:3]=-flip[:3,:3]", "flip[:3,:3]*=-1", "flip[:3,:3]*=-1.0")
-    if ctext not in forms or not negates or len(cond[0].body) != 1 or cond[0].orelse:
-        run.instance("B2", f3.where, f"determinant correction `{ast.unparse(cond[0])[:70]}` not in a recognised form - NOT decided", True, nontrivial=False)
-        run.assume("oriented_bounds: the determinant correction of the axis re-ordering is not in a recognised form")
-    else:
-        for order in itertools.permutations(range(3)):
-            flip = np.eye(4)
-            flip[:3, :3] = -np.eye(3)[list(order)]
-            det = round(float(np.linalg.det(flip[:3, :3])))
-            if forms[ctext](det):
-                flip[:3, :3] = -flip[:3, :3]
-            m3 = flip[:3, :3]
-            good = np.allclose(m3.dot(m3.T), np.eye(3)) and round(float(np.linalg.det(m3))) == 1 and np.allclose(np.abs(m3).dot([1.0, 2.0, 3.0]), np.array([1.0, 2.0, 3.0])[list(order)])
-            run.obligation("B2", f3.where, f"order {order}: re-ordering matrix is orthonormal, det +1 and permutes the extents like `min_extents[order]`", bool(good))
-            if not good:
-                run.violation("B2", f3.where, f"oriented_bounds: for extents order {order} the axis re-ordering matrix is not a det +1 signed permutation matching `min_extents[order]`",
-                              key=key_of("C16-B2", "flip", order))
+    # the re-ordering matrix: abstract interpretation in the domain of SIGNED PERMUTATION matrices (sign, permutation), for each
+    # of the six orders the extents can come in.  det(s * P_sigma) = s^3 * parity(sigma); `-M`, `M *= -1`, `dot(M, -I)` flip s;
+    # `eye(3)[order]` is (+1, order); tests on the determinant or on entries of `order` are evaluated exactly.
+    _reorder_enumeration(run, ix, f3)
     fl = None
     for a in to_alts:
         fl = fl or V3.match("numpy.dot(_e_FLIP, _e_TO)", a)
@@ -296,10 +497,13 @@ def check(run):
             oe["ORD"] = inits[0]["_e_ORD"]
             R.same("the re-ordering matrix starts as -I[order] with the order that re-orders the extents", oe, [("_e_ORD2", "ORD")],
                    "the axis re-ordering matrix and the re-ordered extents use different orders", "flip-init")
+        elif not all(i is not None for i in inits) or not ordered_ext:
+            run.instance("B2", f3.where, "construction of the axis re-ordering matrix not in a recognised form - NOT decided", True, nontrivial=False)
+            run.assume("oriented_bounds: the construction of the axis re-ordering matrix is not in a recognised form")
         else:
-            run.instance("B2", f3.where, f"re-ordering matrix starts as -I[order]: {okf}", okf)
+            run.instance("B2", f3.where, f"re-ordering matrix starts as -I[order] with one order: {okf}", okf)
             if not okf:
-                run.violation("B2", f3.where, "the axis re-ordering matrix of oriented_bounds is not built as -I[order]", key=key_of("C16-B2", "flip-init"))
+                run.violation("B2", f3.where, "the alternatives of the axis re-ordering matrix of oriented_bounds start from different orders", key=key_of("C16-B2", "flip-init"))
 
     # ------------------------------------------------------------------ B3
     fs = ix.func("trimesh.nsphere:minimum_nsphere")
